@@ -640,10 +640,10 @@ class Function(NameAliasMixin, TokenList):
 
     def get_window(self):
         """Return the window if it exists."""
-        over_clause = self.token_next_by(i=Over)
-        if not over_clause:
+        _, over_clause = self.token_next_by(i=Over)
+        if over_clause is None:
             return None
-        return over_clause[1].tokens[-1]
+        return over_clause.tokens[-1]
 
 
 class Begin(TokenList):
